@@ -4,6 +4,7 @@
    that can fail. *)
 Require Import Bebop.sys.Sys Bebop.gen.CliSteps.
 From Coq Require Import List.
+Import ListNotations.
 
 (* with a safe order a fault at ANY step leaves the target exactly as it was and is reported; without a fault the new
    content is installed *)
